@@ -147,7 +147,7 @@ REQUIRED_HITS = ['smtp-attempt-judged', 'lmtp-attempt-judged', 'pipe-attempt-jud
                  'stratum/non-250-acceptance-x-end-of-data-outcome',
                  'stratum/non-250-acceptance-then-second-message-on-the-connection',
                  'stratum/mx-fallback-sequence', 'stratum/mx-forced-destination',
-                 'stratum/mx-resolver-answer-changes', 'stratum/https-session', 'stratum/https-handshake-failure',
+                 'stratum/mx-resolver-answer-changes', 'stratum/mx-several-domains-through-one-relay', 'stratum/https-session', 'stratum/https-handshake-failure',
                  'stratum/http-3xx-status', 'stratum/http-interim-100', 'stratum/pipe-stdin-not-read']
 SHARDS = {'quick': 12, 'thorough': 16}
 BUDGET = {'quick': 60, 'thorough': 800}
@@ -1620,6 +1620,34 @@ def gen_mx_all():
        dns_seq=[two, {'MX': [[5, 'mx3'], [7, 'mx2']]}])
     mk('dns-changes', 'a-then-mx-ttl0', None, [0, 1], ['@domain', 'mx1'], ['D', 'D'], ttl=0,
        dns_seq=[{'MX': 'NODATA', 'A': [['192.0.2.7']]}, two])
+    # several domains through ONE MxSmtpRelay, one after the other and in the other order: every attempt must use
+    # the connection its own domain's destination (host, port) names.  dests: 'host:port' -> behaviour
+    beh = {'accept': 'D', '550': 'P', '450': 'T'}
+    multi = [
+        ('forced-same-host-different-ports',
+         [{'force': ['h0', 2525]}, {'force': ['h0', 2526]}, {'force': ['h0', 25]}],
+         {'h0:2525': 'accept', 'h0:2526': '550', 'h0:25': '450'}),
+        ('forced-different-hosts-same-port', [{'force': ['h0', 2525]}, {'force': ['h1', 2525]}],
+         {'h0:2525': 'accept', 'h1:2525': '550'}),
+        ('forced-vs-resolved-same-host', [{'force': ['h0', 2525]}, {'mx': [[10, 'h0']]}],
+         {'h0:2525': '550', 'h0:25': 'accept'}),
+        ('forced-vs-resolved-same-host-2', [{'force': ['h0', 587]}, {'mx': [[10, 'h0']]}, {'force': ['h1', 25]}],
+         {'h0:587': 'accept', 'h0:25': '450', 'h1:25': '550'}),
+        ('resolved-two-domains-same-host', [{'mx': [[10, 'h0']]}, {'mx': [[5, 'h0']]}], {'h0:25': 'accept'}),
+        ('resolved-two-domains-overlapping-hosts', [{'mx': [[10, 'h0'], [20, 'h1']]}, {'mx': [[10, 'h1']]}],
+         {'h0:25': 'accept', 'h1:25': '550'}),
+    ]
+    for name, doms, dests in multi:
+        n = len(doms)
+        for order in ([list(range(n)), list(range(n - 1, -1, -1))] + ([[1, 0, 2], [0, 1, 0, 1]] if n == 3 else [[0, 1, 1, 0]])):
+            eh, ep, ex = [], [], []
+            for d in order:
+                h, prt = doms[d]['force'] if doms[d].get('force') else (sorted(doms[d]['mx'])[0][1], 25)
+                eh.append(h)
+                ep.append(prt)
+                ex.append(beh[dests['%s:%d' % (h, prt)]])
+            mk('multi-domain', '%s/order%s' % (name, ''.join(map(str, order))), None, [0] * len(order), eh, ex,
+               domains=doms, dests=dests, order=order, expect_port=ep)
     # every other error the resolver library can report is a resolver error => transient
     for name in sorted(DNS_ERR_ALL):
         if name not in ('NODATA', 'NOTFOUND') and name not in DNS_ERR:
@@ -1628,7 +1656,71 @@ def gen_mx_all():
     return cases
 
 
+def exec_mx_multi(case, alone=False):
+    """Several recipient domains through one MxSmtpRelay; one scripted next hop per destination (host, port)."""
+    ch = _stub_channel()
+    uid = _uid()
+    T = T_ALONE if alone else T_FAST
+    base = 'd%d.mx.test' % uid
+    doms = ['m%d.%s' % (i, base) for i in range(len(case['domains']))]
+    dests, seen_addr, keys = {}, [], []
+
+    def hostname(h):
+        return '%s.%s' % (h, base)
+    scripts = {'accept': {}, '550': {'rcpt0': ('reply', '550')}, '450': {'rcpt0': ('reply', '450')}}
+
+    def creator(address):
+        seen_addr.append(address)
+        host, port = address[0], address[1]
+        short = '%s:%d' % (host[:-len(base) - 1] if host.endswith('.' + base) else host, port)
+        if short not in case['dests']:
+            raise socket.error(errno.ECONNREFUSED, 'no such scripted destination %r' % (address,))
+        if short not in dests:
+            dests[short] = Downstream11(script=dict(scripts[case['dests'][short]]))
+        return dests[short].creator(address)
+
+    relay = MxSmtpRelay(socket_creator=creator, connect_timeout=T, command_timeout=T, data_timeout=T,
+                        ehlo_as='me', context=_ctx('client'))
+    for dom, spec in zip(doms, case['domains']):
+        if spec.get('force'):
+            relay.force_mx(dom, hostname(spec['force'][0]), spec['force'][1])
+        else:
+            ch.table[(dom, 'MX')] = [Rec(hostname(h), p, 300) for p, h in spec['mx']]
+            keys.append((dom, 'MX'))
+    msgs = []
+    try:
+        for i, d in enumerate(case['order']):
+            marker = 'c11-%d-a%d' % (uid, i)
+            rcpts = ['r0@' + doms[d]]
+            env = make_envelope('s@src.test', rcpts, marker)
+            n0 = len(seen_addr)
+            res = run_attempt(relay, env, case['attempts'][i], T)
+            gevent.sleep(0)
+            m = {'label': 'attempt#%d(domain%d)' % (i, d), 'marker': marker, 'rcpts': rcpts, 'result': res,
+                 'expect': {rcpts[0]: case['expect'][i]}, 'chosen': [list(a) for a in seen_addr[n0:]],
+                 'expected_host': hostname(case['expect_host'][i]), 'expected_port': case['expect_port'][i]}
+            acc = set()
+            for D in dests.values():
+                acc.update(D.accepted().get(marker, ()))
+            m['accepted'] = sorted(acc)
+            # which scripted destination really received this message (by its marker)?
+            m['received_by'] = sorted(k for k, D in dests.items() for c in D.conns for t in c.txns
+                                      if t['marker'] == marker)
+            msgs.append(m)
+    finally:
+        for r in relay._relayers.values() if hasattr(relay, '_relayers') else ():
+            gevent.killall(list(r.pool), block=False)
+        for D in dests.values():
+            D.kill()
+        for k in keys:
+            ch.table.pop(k, None)
+    return {'msgs': msgs, 'fired': [], 'nfaults': 0,
+            'log': {'hosts': {h: _conn_log(D) for h, D in dests.items()}}}
+
+
 def exec_mx(case, alone=False):
+    if case.get('domains'):
+        return exec_mx_multi(case, alone)
     ch = _stub_channel()
     uid = _uid()
     T = T_ALONE if alone else T_FAST
@@ -2031,7 +2123,8 @@ def strata(case, obs):
         out.append('reply-text-variant')
     if kind == 'mx':
         name = {'mx3-fallback': 'mx-fallback-sequence', 'force-mx': 'mx-forced-destination',
-                'dns-changes': 'mx-resolver-answer-changes'}.get(st)
+                'dns-changes': 'mx-resolver-answer-changes',
+                'multi-domain': 'mx-several-domains-through-one-relay'}.get(st)
         if name:
             out.append(name)
     elif kind == 'http':
